@@ -7,7 +7,10 @@ import (
 	"encoding/binary"
 	"fmt"
 	"io"
+	"math"
 	"net"
+	"net/http"
+	"net/http/httptest"
 	"strings"
 	"time"
 
@@ -175,7 +178,470 @@ func gz19(plain []byte, name string) []byte {
 	return b.Bytes()
 }
 
+// ---- overlapping dumps of one cache -------------------------------------
+//
+// writeDump has three callers that are not serialised against each other (the
+// periodic dump, Close, GET /dump). The scenario below holds a dump up inside
+// one of its writes to the consumer (back-pressure of a slow client / disk),
+// lets the cache change and further dumps run meanwhile, and then reloads
+// every dump. What may be demanded of a dump that overlapped other activity is
+// only what the statement says of "dumping a cache": the intact dump loads
+// without error, every reloaded entry is an entry (key, answer, times) the
+// cache held at some moment while that dump ran, and an entry that was live
+// and untouched for the whole time of the dump is there.
+
+// gate19 parks the writer inside its at-th Write (0 = the gzip header, which
+// is emitted from inside the first gw.Write of the first block).
+type gate19 struct {
+	buf     bytes.Buffer
+	n, at   int
+	entered chan struct{}
+	release chan struct{}
+}
+
+func (g *gate19) Write(p []byte) (int, error) {
+	i := g.n
+	g.n++
+	if i == g.at {
+		close(g.entered)
+		<-g.release
+	}
+	return g.buf.Write(p)
+}
+
+type countW19 struct{ n int }
+
+func (c *countW19) Write(p []byte) (int, error) { c.n++; return len(p), nil }
+
+const never19 = math.MaxInt32
+
+// ver19 is one version of one key with the (logical-clock) intervals in which
+// it was being installed and being replaced; the clock only ticks on the
+// scenario's own goroutine, begin ticks are taken before an action starts and
+// end ticks after it was seen to have finished.
+type ver19 struct {
+	e      ent19
+	wire   []byte
+	ib, ie int
+	rb, re int
+}
+
+type dump19 struct {
+	name     string
+	how      string
+	s, e     int
+	gate     *gate19
+	plain    *bytes.Buffer
+	rec      *httptest.ResponseRecorder
+	done     chan struct{}
+	n        int
+	err      error
+	finished bool
+	noPark   bool // parked state already reported, or the gate was opened
+}
+
+func (d *dump19) bytes() []byte {
+	switch {
+	case d.gate != nil:
+		return d.gate.buf.Bytes()
+	case d.rec != nil:
+		return d.rec.Body.Bytes()
+	}
+	return d.plain.Bytes()
+}
+
+// variant19 returns another answer for the same key: same size (only the
+// message ID and the times differ), smaller, or of unrelated size.
+func (r *Run) variant19(old ent19, i int, now time.Time, kind int) ent19 {
+	var e ent19
+	switch kind {
+	case 0: // same encoded size
+		e = old
+		e.msg = old.msg.Copy()
+		e.msg.Id = uint16(1 + r.Rng.Intn(65535))
+	case 1: // smaller: fewer records
+		e = old
+		e.msg = old.msg.Copy()
+		e.msg.Id = uint16(1 + r.Rng.Intn(65535))
+		if n := len(e.msg.Answer); n > 0 {
+			e.msg.Answer = e.msg.Answer[:r.Rng.Intn(n)]
+		}
+		e.msg.Ns = nil
+	default:
+		e = r.entry19(i, now, false)
+		e.key = old.key
+	}
+	e.stored = now.Add(-time.Duration(r.Rng.Intn(4000)) * time.Second)
+	if r.Rng.Intn(4) == 0 { // lazy entry: message expired, still stored
+		e.mexp = now.Add(-time.Duration(1+r.Rng.Intn(100)) * time.Second)
+	} else {
+		e.mexp = now.Add(time.Duration(900+r.Rng.Intn(5000)) * time.Second)
+	}
+	e.cexp = now.Add(time.Duration(7200+r.Rng.Intn(86400)) * time.Second)
+	return e
+}
+
+func (r *Run) overlap19(round int) {
+	now := time.Now()
+	tick := 0
+	next := func() int { tick++; return tick }
+	big := r.Rng.Intn(6) == 0
+	nEnt := []int{1, 2, 5, 20, 60, 127, 128, 129, 300}[r.Rng.Intn(9)]
+	if round%2 == 0 {
+		nEnt = 1 + r.Rng.Intn(120) // one block: no write to the consumer before the store has been ranged
+	}
+	if big {
+		nEnt = 20 + r.Rng.Intn(60) // ~10 KB answers: the compressor writes to the consumer in the middle of blocks
+	}
+	src := cache.NewCache(&cache.Args{Size: 1 << 16, LazyCacheTTL: 86400}, cache.Opts{})
+	defer src.Close()
+	hist := map[string][]*ver19{}
+	var keys []string
+	install := func(e ent19, ib int) *ver19 {
+		w, _ := e.msg.Pack()
+		v := &ver19{e: e, wire: w, ib: ib, ie: never19, rb: never19, re: never19}
+		if _, ok := hist[e.key]; !ok {
+			keys = append(keys, e.key)
+		}
+		hist[e.key] = append(hist[e.key], v)
+		return v
+	}
+	current := func(k string) *ver19 {
+		vs := hist[k]
+		if len(vs) == 0 || vs[len(vs)-1].rb != never19 {
+			return nil
+		}
+		return vs[len(vs)-1]
+	}
+	t0 := next()
+	for i := 0; i < nEnt; i++ {
+		e := r.entry19(i, now, big)
+		e = r.variant19(e, i, now, 0)
+		src.VerifInject(e.key, e.msg, e.stored, e.mexp, e.cexp)
+		install(e, t0).ie = t0
+	}
+	nextKey := nEnt
+	cw := &countW19{}
+	if n, err := src.VerifWriteDump(cw); err != nil || n != nEnt {
+		r.Fail("writeDump failed or did not write exactly the live entries", map[string]any{"entries": nEnt, "written": n, "err": fmt.Sprint(err)})
+		return
+	}
+	singleBlock := nEnt <= 120 && !big // stays one block with the few names the updates add
+	at := 0
+	if cw.n > 2 && r.Rng.Intn(3) == 0 {
+		at = r.Rng.Intn(cw.n)
+	}
+	var log []string
+	var dumps []*dump19
+	start := func(name string, gated bool, gateAt int) *dump19 {
+		d := &dump19{name: name, done: make(chan struct{}), e: never19}
+		switch {
+		case gated:
+			d.how = fmt.Sprintf("writeDump into a consumer that stalls in its write #%d", gateAt)
+			d.gate = &gate19{at: gateAt, entered: make(chan struct{}), release: make(chan struct{})}
+		case r.Rng.Intn(2) == 0:
+			d.how = "GET /dump on the plugin API"
+			d.rec = httptest.NewRecorder()
+		default:
+			d.how = "writeDump (as the periodic dump / Close)"
+			d.plain = new(bytes.Buffer)
+		}
+		d.s = next()
+		log = append(log, fmt.Sprintf("t%d: dump %s starts: %s", d.s, name, d.how))
+		go func() {
+			defer close(d.done)
+			switch {
+			case d.gate != nil:
+				d.n, d.err = src.VerifWriteDump(d.gate)
+			case d.rec != nil:
+				src.Api().ServeHTTP(d.rec, httptest.NewRequest(http.MethodGet, "/dump", nil))
+				d.n = -1
+				if d.rec.Code != http.StatusOK {
+					d.err = fmt.Errorf("status %d: %s", d.rec.Code, d.rec.Body.String())
+				}
+			default:
+				d.n, d.err = src.VerifWriteDump(d.plain)
+			}
+		}()
+		dumps = append(dumps, d)
+		return d
+	}
+	// sees whether d has finished (or, for a gated dump, is parked) within the wait
+	settle := func(d *dump19, wait time.Duration) (parked bool) {
+		var ent chan struct{}
+		if d.gate != nil && !d.noPark {
+			ent = d.gate.entered
+		}
+		select {
+		case <-d.done:
+			if !d.finished {
+				d.finished = true
+				d.e = next()
+				log = append(log, fmt.Sprintf("t%d: dump %s has finished", d.e, d.name))
+			}
+		case <-ent:
+			d.noPark = true
+			log = append(log, fmt.Sprintf("t%d: dump %s is held up by its consumer", next(), d.name))
+			return true
+		case <-time.After(wait):
+		}
+		return false
+	}
+	type batch19 struct {
+		done    chan struct{}
+		b       int
+		vers    []*ver19 // installed by this batch
+		retired []*ver19 // replaced / flushed by this batch
+		closed  bool
+	}
+	var pending *batch19
+	finishBatch := func(wait time.Duration) bool {
+		if pending == nil {
+			return true
+		}
+		select {
+		case <-pending.done:
+			te := next()
+			for _, v := range pending.vers {
+				v.ie = te
+			}
+			for _, v := range pending.retired {
+				v.re = te
+			}
+			log = append(log, fmt.Sprintf("t%d: the update started at t%d is complete", te, pending.b))
+			pending = nil
+			return true
+		case <-time.After(wait):
+			return false
+		}
+	}
+	mutate := func(wait time.Duration) {
+		if !finishBatch(0) {
+			return
+		}
+		b := &batch19{done: make(chan struct{}), b: next()}
+		var ops []func()
+		kind := r.Rng.Intn(5)
+		what := ""
+		switch kind {
+		case 0:
+			what = "nothing changes"
+		case 1, 2, 3: // replace a share of the keys (all of them every other time) by same-size / smaller / unrelated answers
+			vk := kind - 1
+			what = []string{"answers replaced by answers of the same size", "answers replaced by smaller answers", "answers replaced by unrelated answers"}[vk]
+			all := r.Rng.Intn(2) == 0
+			cnt := 0
+			for i, k := range keys {
+				cur := current(k)
+				if cur == nil || (!all && r.Rng.Intn(3) != 0) {
+					continue
+				}
+				e := r.variant19(cur.e, i, now, vk)
+				cur.rb = b.b
+				b.retired = append(b.retired, cur)
+				b.vers = append(b.vers, install(e, b.b))
+				ops = append(ops, func() { src.VerifInject(e.key, e.msg, e.stored, e.mexp, e.cexp) })
+				cnt++
+			}
+			for j := r.Rng.Intn(3); j > 0 && vk == 2; j-- { // and a few new names
+				e := r.variant19(r.entry19(nextKey, now, false), nextKey, now, 0)
+				nextKey++
+				b.vers = append(b.vers, install(e, b.b))
+				ops = append(ops, func() { src.VerifInject(e.key, e.msg, e.stored, e.mexp, e.cexp) })
+			}
+			what = fmt.Sprintf("%d %s", cnt, what)
+		default: // GET /flush, then part of the names come back (same size)
+			var back []ent19
+			for i, k := range keys {
+				cur := current(k)
+				if cur == nil {
+					continue
+				}
+				cur.rb = b.b
+				b.retired = append(b.retired, cur)
+				if r.Rng.Intn(3) != 0 {
+					back = append(back, r.variant19(cur.e, i, now, 0))
+				}
+			}
+			ops = append(ops, func() {
+				src.Api().ServeHTTP(httptest.NewRecorder(), httptest.NewRequest(http.MethodGet, "/flush", nil))
+			})
+			for _, e := range back {
+				e := e
+				b.vers = append(b.vers, install(e, b.b))
+				ops = append(ops, func() { src.VerifInject(e.key, e.msg, e.stored, e.mexp, e.cexp) })
+			}
+			what = fmt.Sprintf("GET /flush, then %d of the names are stored again", len(back))
+		}
+		log = append(log, fmt.Sprintf("t%d: update: %s", b.b, what))
+		r.Count("overlap-update-" + []string{"none", "same-size", "smaller", "unrelated", "flush-refill"}[kind])
+		go func() {
+			defer close(b.done)
+			for _, op := range ops {
+				op()
+			}
+		}()
+		pending = b
+		finishBatch(wait)
+	}
+
+	long, short := 60*time.Second, 30*time.Millisecond
+	A := start("A", true, at)
+	aParked := settle(A, long)
+	if !aParked && !A.finished {
+		r.Count("overlap-stuck-skipped")
+		return
+	}
+	// a one-block dump writes to its consumer only after it has left Range, so a
+	// parked dump holds no lock of the store; a longer one may, and whoever needs
+	// that shard waits for it: then do not wait for them
+	wait := short
+	if singleBlock {
+		wait = long
+	}
+	ranWhileParked := []*dump19{}
+	phases := 1 + r.Rng.Intn(2)
+	for ph := 0; ph < phases; ph++ {
+		mutate(wait)
+		name := string(rune('B' + ph))
+		gated := r.Rng.Intn(4) == 0
+		d := start(name, gated, 0)
+		if !settle(d, wait) && d.finished && aParked {
+			ranWhileParked = append(ranWhileParked, d)
+		}
+	}
+	if r.Rng.Intn(2) == 0 {
+		mutate(wait)
+	}
+	// release the consumers in a seeded order
+	var rel []*dump19
+	for _, d := range dumps {
+		if d.gate != nil {
+			rel = append(rel, d)
+		}
+	}
+	r.Rng.Shuffle(len(rel), func(i, j int) { rel[i], rel[j] = rel[j], rel[i] })
+	for _, d := range rel {
+		log = append(log, fmt.Sprintf("t%d: the consumer of dump %s no longer stalls", next(), d.name))
+		d.noPark = true
+		close(d.gate.release)
+		if r.Rng.Intn(2) == 0 {
+			settle(d, wait)
+		}
+	}
+	for _, d := range dumps {
+		if !d.finished {
+			settle(d, long)
+		}
+		if !d.finished {
+			r.Count("overlap-stuck-skipped")
+			return
+		}
+	}
+	if !finishBatch(long) {
+		r.Count("overlap-stuck-skipped")
+		return
+	}
+	// one more dump with nothing else going on
+	Z := start("Z", false, 0)
+	settle(Z, long)
+	if !Z.finished {
+		r.Count("overlap-stuck-skipped")
+		return
+	}
+
+	r.Count("overlap-scenario")
+	if aParked {
+		r.Count(fmt.Sprintf("overlap-first-dump-held-in-write-%s", map[bool]string{true: "0", false: "n"}[at == 0]))
+	}
+	type reload struct {
+		n      int
+		err    bool
+		blocks [][]int
+		ok     bool
+	}
+	rl := map[*dump19]reload{}
+	for _, d := range dumps {
+		comp := d.bytes()
+		desc := map[string]any{"entries": nEnt, "big_answers": big, "history": log, "dump": d.name, "dump_ran": fmt.Sprintf("t%d..t%d", d.s, d.e), "dump_bytes": len(comp)}
+		r.Eval(fmt.Sprintf("overlap:%d:%s:%d", round, d.name, len(comp)), len(dumps) > 1)
+		if d.err != nil {
+			desc["err"] = fmt.Sprint(d.err)
+			r.Fail("a dump taken while other dumps / updates of the same cache were in flight failed", desc)
+			continue
+		}
+		res := load19(comp)
+		if res.panicked != nil || res.timedOut || res.err != nil {
+			desc["err"], desc["panic"] = fmt.Sprint(res.err), fmt.Sprint(res.panicked)
+			r.Fail("an intact dump, taken while other dumps / updates of the same cache were in flight, fails to load", desc)
+			if res.c != nil {
+				res.c.Close()
+			}
+			continue
+		}
+		if d.n >= 0 && d.n != res.n {
+			desc["written"], desc["read"] = d.n, res.n
+			r.Fail("the loader read a different number of entries than the dump reported written", desc)
+		}
+		found, bad := 0, 0
+		for _, k := range keys {
+			m2, st2, me2, ce2, ok := res.c.VerifPeek(k)
+			var definite *ver19
+			for _, v := range hist[k] {
+				if v.ie < d.s && v.rb > d.e {
+					definite = v
+				}
+			}
+			if !ok {
+				if definite != nil && bad < 3 {
+					bad++
+					desc["key"] = k
+					r.Fail("an entry that was live and untouched for the whole time of the dump is missing after reload", desc)
+				}
+				continue
+			}
+			found++
+			w2, _ := m2.Pack()
+			match := false
+			for _, v := range hist[k] {
+				if v.ib <= d.e && v.re >= d.s && bytes.Equal(v.wire, w2) &&
+					v.e.stored.Unix() == st2.Unix() && v.e.mexp.Unix() == me2.Unix() && v.e.cexp.Unix() == ce2.Unix() {
+					match = true
+				}
+			}
+			if !match && bad < 3 {
+				bad++
+				desc["key"] = k
+				r.Fail("a reloaded entry (answer, stored / message-expiry / cache-expiry time) is not an entry the cache held under that key at any moment while the dump ran", desc)
+			}
+		}
+		if found != res.c.VerifLen() {
+			desc["reloaded"], desc["under_known_keys"] = res.c.VerifLen(), found
+			r.Fail("reloading the dump added entries under keys the cache never held", desc)
+		}
+		plain, clean, _ := gunzipAvail(comp)
+		bl, okp := blocks19(plain)
+		rl[d] = reload{n: res.c.VerifLen(), blocks: bl, ok: clean && okp && !big}
+		res.c.Close()
+	}
+	// the same interleaving on the model: A marshals its first block and is held
+	// in gw.Write(l); B runs from start to end; A resumes
+	if aParked && at == 0 && singleBlock && len(ranWhileParked) > 0 {
+		B := ranWhileParked[0]
+		ra, okA := rl[A]
+		rb, okB := rl[B]
+		if okA && okB && ra.ok && rb.ok && len(ra.blocks) > 0 {
+			sched := "0" + strings.Repeat("1", 3*len(rb.blocks)) + strings.Repeat("0", 3*len(ra.blocks)-1)
+			r.Line(fmt.Sprintf("ovl %s %s %s", blocksOp19(ra.blocks), blocksOp19(rb.blocks), sched), fmt.Sprintf("%d 0 %d 0", ra.n, rb.n))
+			r.Count("overlap-replayed-on-model")
+		}
+	}
+}
+
 func runC19(r *Run) {
+	for round := 0; round < r.N(16, 200); round++ {
+		r.overlap19(round)
+	}
 	rounds := r.N(4, 40)
 	for round := 0; round < rounds; round++ {
 		now := time.Now()
@@ -410,5 +876,5 @@ func runC19(r *Run) {
 			res.c.Close()
 		}
 	}
-	r.Finish("caches of {0,1,5,127,128,129,256,300} entries (a quarter with ~10 KB answers, 130..190 entries) with random ages, a sixth message-expired but still stored, a sixth already out of the store; dump -> load into an empty cache -> compare keys, answers, times and served TTLs; truncation of the compressed dump at seeded points + the whole gzip header and trailer (thorough: every byte of small dumps); crafted gzip streams with block lengths {0,1,7,2^20,2^20+1,2^31,...,2^64-1}; random bytes, wrong header names, bit flips; non-trivial = dump with live entries / cut that leaves more than a header / every hostile file")
+	r.Finish("overlapping dumps of one cache: a first dump (1..300 entries, a sixth with ~10 KB answers) is held up inside a seeded write to its consumer (the gzip header or a later one) while 1-2 further dumps (writeDump or GET /dump, a quarter held up too) run and the cache is updated between them (nothing / same-size / smaller / unrelated answers, new names, GET /flush + partial refill), consumers released in seeded order, one final undisturbed dump; every dump is reloaded: it loads without error, every reloaded entry equals (answer and times to the second) a version the cache held under that key at some moment while that dump ran, entries live and untouched for the whole dump are present, no foreign keys; when the first dump was parked in the first write of a one-block dump and the next ran start to end, the same interleaving is run on the model (ovl); then caches of {0,1,5,127,128,129,256,300} entries (a quarter with ~10 KB answers, 130..190 entries) with random ages, a sixth message-expired but still stored, a sixth already out of the store; dump -> load into an empty cache -> compare keys, answers, times and served TTLs; truncation of the compressed dump at seeded points + the whole gzip header and trailer (thorough: every byte of small dumps); crafted gzip streams with block lengths {0,1,7,2^20,2^20+1,2^31,...,2^64-1}; random bytes, wrong header names, bit flips; non-trivial = dump with live entries / cut that leaves more than a header / every hostile file")
 }
